@@ -2,10 +2,12 @@ module verif/harness
 
 go 1.23
 
-require github.com/fluhus/biostuff v0.0.0
+require (
+	github.com/fluhus/biostuff v0.0.0
+	github.com/fluhus/gostuff v1.0.1
+)
 
 require (
-	github.com/fluhus/gostuff v1.0.1 // indirect
 	github.com/klauspost/compress v1.17.9 // indirect
 	github.com/spaolacci/murmur3 v1.1.0 // indirect
 	golang.org/x/exp v0.0.0-20240604190554-fc45aab8b7f8 // indirect
